@@ -1,13 +1,19 @@
+pub mod c07;
 pub mod c09;
 pub mod c10;
+pub mod c12;
+pub mod c13;
 
 use crate::simkit::Property;
 
 pub fn by_id(id: &str) -> Option<Box<dyn Property>> {
     match id {
+        "C07" => Some(Box::new(c07::C07)),
         "C09" => Some(Box::new(c09::C09)),
         "C10" => Some(Box::new(c10::C10)),
+        "C12" => Some(Box::new(c12::C12)),
+        "C13" => Some(Box::new(c13::C13)),
         _ => None,
     }
 }
-pub const ALL: &[&str] = &["C09", "C10"];
+pub const ALL: &[&str] = &["C07", "C09", "C10", "C12", "C13"];
